@@ -21,8 +21,11 @@ PATTERNS = [
     ("{mother} -> {daughters}", "{{{mother} -> {daughters}}}"),              # literal braces, escaped as format strings require
     ("{daughters} <- {mother}", "[[{daughters} <- {mother}]]"),            # daughters first
 ]
+import os as _os
+
+THOROUGH = _os.environ.get("VERIF_TIER") == "thorough"
 STRUCTS = [(k, s, m2) for k in (1, 2, 3, 4, 5) for s in (SHAPES[k] if k >= 2 else [()]) for m2 in (0, 1)
-           if k <= 4 or all(len(ps) == 1 for ps in s)]
+           if k <= 4 or THOROUGH or all(len(ps) == 1 for ps in s)]
 N_DESCR = len(STRUCTS) * len(POOLS) * len(PATTERNS)
 DEFAULT = {"decay_pattern": "{mother} -> {daughters}", "sub_decay_pattern": "({mother} -> {daughters})"}
 
